@@ -37,6 +37,7 @@ def relevant (d s : Nat) : Op → Bool
   | .update d' _ => d' = d
   | .setParams d' _ => d' = d
   | .setScorerParams s' _ => s' = s
+  | .fitRejected d' _ => d' = d
   | _ => false
 
 /-- effect of a relevant call on the view: a function of the view and the call only -/
@@ -50,6 +51,7 @@ def viewStep (sem : Sem) (v : DetView) : Op → DetView
                fittedOn := some (v.params, v.scorerParams, sem.combine X old) }
   | .setParams _ p => { v with params := p, fittedOn := none, train := none }
   | .setScorerParams _ p => { v with scorerParams := p }
+  | .fitRejected _ X => { v with train := some X, fittedOn := none }
   | _ => v
 
 /-- one step: irrelevant calls leave the view alone, relevant ones act through `viewStep` -/
@@ -114,6 +116,16 @@ theorem view_step (sem : Sem) (h : Heap) (d : Nat) (op : Op) :
     · simp [step, viewOf, relevant, updS, hs]
   | scorerEval s' cuts =>
     cases hf : (h.scorers s').fitted <;> simp [step, viewOf, relevant, hf]
+  | fitRejected d' X =>
+    by_cases hd : d' = d
+    · subst hd; simp [step, viewOf, relevant, viewStep, updD]
+    · have hd' : ¬ d = d' := fun h => hd h.symm
+      simp [step, viewOf, relevant, updD, hd, hd']
+  | updateRejected d' X => simp [step, relevant]
+  | scorerFitRejected s' X =>
+    by_cases hs : (h.dets d).scorer = s'
+    · simp [step, viewOf, relevant, updS, hs]
+    · simp [step, viewOf, relevant, updS, hs]
 
 /-- the heap after a history -/
 def heapAfter (sem : Sem) : Heap → List Op → Heap
@@ -176,5 +188,31 @@ theorem update_is_fit_on_combined (sem : Sem) (v : DetView) (old new : Data) :
     viewStep sem (viewStep sem v (.fit 0 old)) (.update 0 new) =
       viewStep sem v (.fit 0 (sem.combine new old)) := by
   simp [viewStep]
+
+/-! ### calls that raise -/
+
+/-- **C10, exception safety (model level)**: after a `fit` that raised, the detector does not answer from an
+    earlier fit: `predict` and `transform_scores` raise "not fitted" until the next successful `fit` -/
+theorem rejected_fit_leaves_not_fitted (sem : Sem) (h : Heap) (d : Nat) (X Y : Data) :
+    (step sem (step sem h (.fitRejected d X)).1 (.predict d Y)).2 = none ∧
+    (step sem (step sem h (.fitRejected d X)).1 (.transformScores d Y)).2 = none := by
+  simp [step, updD]
+
+/-- … and a later successful `fit` makes the rejected one invisible -/
+theorem fit_after_rejected_fit (sem : Sem) (v : DetView) (X Y : Data) :
+    viewStep sem (viewStep sem v (.fitRejected 0 X)) (.fit 0 Y) = viewStep sem v (.fit 0 Y) := by
+  simp [viewStep]
+
+/-- **C10, exception safety**: an `update` whose batch is rejected changes nothing — the histories with and
+    without it are indistinguishable, in particular the next valid `update` gives the fit on the old and the
+    new data combined -/
+theorem rejected_update_is_invisible (sem : Sem) (h : Heap) (d : Nat) (X : Data) (ops : List Op) :
+    runHist sem (step sem h (.updateRejected d X)).1 ops = runHist sem h ops := by
+  simp [step]
+
+/-- a scorer whose `fit` raised does not evaluate from an earlier fit -/
+theorem rejected_scorer_fit_leaves_not_fitted (sem : Sem) (h : Heap) (s : Nat) (X : Data) (cuts : Nat) :
+    (step sem (step sem h (.scorerFitRejected s X)).1 (.scorerEval s cuts)).2 = none := by
+  simp [step, updS]
 
 end Skc
